@@ -317,7 +317,7 @@ static void explore_cfg(Ctx &c, const Cfg &cfg){
         G.loadNeededValues(vals); C.loadNeededValues(vals); c.transitions++; hist += " load"; check(c, E, G, C, hist);
         // change of the linear transform
         int i0 = g_ab_index(cfg); int i1 = (i0 + 1) % 3; std::vector<double> a1, b1; ab_alphabet(cfg, i1, a1, b1);
-        G.setDomainTransform(a1, b1); c.transitions++; E.ta = a1; E.tb = b1; hist += " setDomainTransform(T')"; check(c, E, G, C, hist);
+        G.setDomainTransform(a1.data(), b1.data()); c.transitions++; E.ta = a1; E.tb = b1; hist += " setDomainTransform(T', raw-array overload)"; check(c, E, G, C, hist); // the other overload than make() used: both entry points have to reset whatever the grid derived from the old box
         { TasmanianSparseGrid F; make(F, E); F.loadNeededValues(vals); same_obs(c, E, G, F, hist, "change-of-transform"); }
         // clear the linear transform
         G.clearDomainTransform(); c.transitions++; E.ta.clear(); E.tb.clear(); hist += " clearDomainTransform"; check(c, E, G, C, hist);
